@@ -79,6 +79,13 @@ func init() {
 			{ID: "C16-N4-ignore-ok", File: "core/deadline.go", Expect: "N4|never-expiring",
 				Old: "\t\tif !ok {\n\t\t\t// Ignore the duties that never expire.\n\t\t\tcontinue\n\t\t}\n",
 				New: "\t\t_ = ok\n"},
+			// round 3: collect-then-select form of getCurrDuty (elements of the collected slice are followed)
+			{ID: "C16-N4-two-pass-latest", File: "core/deadline.go", Expect: "N4|earliest",
+				Old: "\tfor duty := range duties {\n\t\tdutyDeadline, ok := deadlineFunc(duty)\n\t\tif !ok {\n\t\t\t// Ignore the duties that never expire.\n\t\t\tcontinue\n\t\t}\n\n\t\tif currDeadline.After(dutyDeadline) {\n\t\t\tcurrDuty = duty\n\t\t\tcurrDeadline = dutyDeadline\n\t\t}\n\t}\n",
+				New: "\ttype cand struct {\n\t\tduty Duty\n\t\tdl   time.Time\n\t}\n\n\tvar cands []cand\n\n\tfor duty := range duties {\n\t\tif dl, ok := deadlineFunc(duty); ok {\n\t\t\tcands = append(cands, cand{duty: duty, dl: dl})\n\t\t}\n\t}\n\n\tfor _, c := range cands {\n\t\tif currDeadline.Before(c.dl) {\n\t\t\tcurrDuty = c.duty\n\t\t\tcurrDeadline = c.dl\n\t\t}\n\t}\n"},
+			{ID: "C16-N4-two-pass-duty-not-updated", File: "core/deadline.go", Expect: "N4|together",
+				Old: "\tfor duty := range duties {\n\t\tdutyDeadline, ok := deadlineFunc(duty)\n\t\tif !ok {\n\t\t\t// Ignore the duties that never expire.\n\t\t\tcontinue\n\t\t}\n\n\t\tif currDeadline.After(dutyDeadline) {\n\t\t\tcurrDuty = duty\n\t\t\tcurrDeadline = dutyDeadline\n\t\t}\n\t}\n",
+				New: "\ttype cand struct {\n\t\tduty Duty\n\t\tdl   time.Time\n\t}\n\n\tvar cands []cand\n\n\tfor duty := range duties {\n\t\tif dl, ok := deadlineFunc(duty); ok {\n\t\t\tcands = append(cands, cand{duty: duty, dl: dl})\n\t\t}\n\t}\n\n\tfor _, c := range cands {\n\t\tif currDeadline.After(c.dl) {\n\t\t\tcurrDeadline = c.dl\n\t\t}\n\t}\n"},
 			{ID: "C16-N4-select-not-earlier", File: "core/deadline.go", Expect: "N4|earliest",
 				Old: "\t\tif currDeadline.After(dutyDeadline) {",
 				New: "\t\tif !currDeadline.After(dutyDeadline) {"},
@@ -202,6 +209,25 @@ func lessFacts(p *an.Path) []lessFact {
 			out = append(out, lessFact{i, call.Args[0], call.Args[1], e.Taken})
 		case "time.Time.After":
 			out = append(out, lessFact{i, call.Args[1], call.Args[0], e.Taken})
+		}
+	}
+	return out
+}
+
+// equalFacts lists the branch decisions of a path on time.Time.Equal results (x and y are the same instant).
+func equalFacts(p *an.Path) []lessFact {
+	idx := h1617Index(p)
+	var out []lessFact
+	for i, e := range p.Evs {
+		if e.Kind != "branch" {
+			continue
+		}
+		ci, ok := idx[e.Args[0]]
+		if !ok {
+			continue
+		}
+		if call := p.Evs[ci]; call.Kind == "call" && len(call.Args) == 2 && call.Name == "time.Time.Equal" {
+			out = append(out, lessFact{i, call.Args[0], call.Args[1], e.Taken})
 		}
 	}
 	return out
@@ -456,12 +482,35 @@ func c16(c *rt.Ctx) {
 		tuple := getCurr.Signature.Results().Len() == 2
 		// a component of a getCurrDuty result: result #idx of the pair, or (should the pair become a struct) the
 		// field of the matching type
-		isRes := func(v ssa.Value) bool {
+		var isResSeen map[ssa.Value]bool
+		var isRes func(v ssa.Value) bool
+		isRes = func(v ssa.Value) bool {
 			if an.TypeName(v.Type()) != want {
 				return false
 			}
 			for i := 0; i < 4; i++ {
 				switch x := v.(type) {
+				case *ssa.Phi:
+					// a variable kept in registers: every value flowing into it is such a result (the phi itself
+					// excepted: loop-carried)
+					if isResSeen == nil {
+						isResSeen = map[ssa.Value]bool{}
+					}
+					if isResSeen[x] {
+						return true
+					}
+					isResSeen[x] = true
+					n := 0
+					for _, e := range x.Edges {
+						if e == ssa.Value(x) {
+							continue
+						}
+						n++
+						if !isRes(e) {
+							return false
+						}
+					}
+					return n > 0
 				case *ssa.Extract:
 					if call, isCall := x.Tuple.(*ssa.Call); isCall && call.Call.StaticCallee() == getCurr {
 						return !tuple || x.Index == idx
@@ -533,7 +582,9 @@ func c16(c *rt.Ctx) {
 			return true, true
 		case an.KOpaque:
 			if s.ID == 0 {
-				return isRes(s.V), isRes(s.V)
+				isResSeen = nil
+				r := isRes(s.V)
+				return r, r
 			}
 			return false, true
 		case an.KParam:
@@ -852,18 +903,39 @@ func c16(c *rt.Ctx) {
 				}
 				// re-arm: a deadline earlier than the armed one recomputes the timer state before the next event
 				var armed *lessFact
+				notEarlier := false // the path decided that the new deadline is not earlier than the armed one
 				for j := range facts {
 					f := &facts[j]
 					if f.pos > i && an.SymEq(f.x, dl) {
 						if ok, _ := fromGetCurr(f.y, 1); ok {
 							armed = f
+							if !f.truth {
+								notEarlier = true
+							}
+						}
+					}
+					if f.pos > i && an.SymEq(f.y, dl) && f.truth {
+						if ok, _ := fromGetCurr(f.x, 1); ok {
+							notEarlier = true // armed deadline earlier than the new one
+						}
+					}
+				}
+				for _, f := range equalFacts(p) {
+					if f.pos <= i || !f.truth {
+						continue
+					}
+					for _, pair := range [][2]*an.Sym{{f.x, f.y}, {f.y, f.x}} {
+						if an.SymEq(pair[0], dl) {
+							if ok, _ := fromGetCurr(pair[1], 1); ok {
+								notEarlier = true // same instant
+							}
 						}
 					}
 				}
 				switch {
 				case recompute(i):
 					agg.ok("run re-arms the timer for an earlier deadline", pos)
-				case armed != nil && !armed.truth:
+				case notEarlier:
 					agg.ok("run re-arms the timer for an earlier deadline", pos)
 				case !iterEnd(p):
 					agg.ok("run re-arms the timer for an earlier deadline", pos)
@@ -1061,51 +1133,52 @@ func c16(c *rt.Ctx) {
 			facts := lessFacts(p)
 			evs := p.Evs
 			var steps []step
+			var stepPos []int
 			undecided := false
+			isDF := func(x an.Ev) bool {
+				call, ok := x.In.(*ssa.Call)
+				return ok && x.Kind == "call" && !call.Call.IsInvoke() && call.Call.StaticCallee() == nil &&
+					an.TypeName(call.Call.Value.Type()) == "core.DeadlineFunc" && len(x.Args) == 1
+			}
 			for i, e := range evs {
 				if e.Kind != "next" {
 					continue
 				}
-				end := len(evs)
-				for j := i + 1; j < len(evs); j++ {
-					if evs[j].Kind == "next" {
-						end = j
-						break
-					}
-				}
 				okSym := &an.Sym{Kind: an.KExtract, Args: []*an.Sym{e.Res}, Index: 0}
-				if t, known := boolFact(p, okSym, end); !known || !t {
+				if t, known := boolFact(p, okSym, len(evs)); !known || !t {
 					continue // loop exit
 				}
 				iterations++
+				// the candidate's deadline and the comparison with the current minimum may come later on the path than
+				// the iteration that took the duty from the set (collect first, select afterwards)
 				cand := &an.Sym{Kind: an.KExtract, Args: []*an.Sym{e.Res}, Index: 1}
 				var dres *an.Sym
-				for j := i + 1; j < end; j++ {
-					x := evs[j]
-					if call, ok := x.In.(*ssa.Call); ok && x.Kind == "call" && !call.Call.IsInvoke() && call.Call.StaticCallee() == nil &&
-						an.TypeName(call.Call.Value.Type()) == "core.DeadlineFunc" && len(x.Args) == 1 && an.SymEq(x.Args[0], cand) {
-						dres = x.Res
+				dpos := -1
+				for j := i + 1; j < len(evs); j++ {
+					if x := evs[j]; isDF(x) && an.SymEq(x.Args[0], cand) {
+						dres, dpos = x.Res, j
+						break
 					}
 				}
 				if dres == nil {
-					agg.unsure(minimum, fn.Pos(), "an iteration does not compute the deadline of its candidate duty with deadlineFunc")
+					agg.unsure(minimum, fn.Pos(), "the deadline of a candidate duty is not computed with deadlineFunc on the path")
 					undecided = true
 					continue
 				}
 				cdl := &an.Sym{Kind: an.KExtract, Args: []*an.Sym{dres}, Index: 0}
 				cok := &an.Sym{Kind: an.KExtract, Args: []*an.Sym{dres}, Index: 1}
-				if t, known := boolFact(p, cok, end); known && !t {
+				if t, known := boolFact(p, cok, len(evs)); known && !t {
 					continue // never-expiring duty skipped
 				}
 				var cmp *lessFact
 				for j := range facts {
 					f := &facts[j]
-					if f.pos > i && f.pos < end && (an.SymEq(f.x, cdl) || an.SymEq(f.y, cdl)) && cmp == nil {
+					if f.pos > dpos && (an.SymEq(f.x, cdl) || an.SymEq(f.y, cdl)) && cmp == nil {
 						cmp = f
 					}
 				}
 				if cmp == nil {
-					agg.unsure(minimum, fn.Pos(), "no time comparison of the candidate's deadline with the current minimum found in an iteration")
+					agg.unsure(minimum, fn.Pos(), "no time comparison of a candidate's deadline with the current minimum found on the path")
 					undecided = true
 					continue
 				}
@@ -1117,7 +1190,13 @@ func c16(c *rt.Ctx) {
 				}
 				t, known := boolFact(p, cok, cmp.pos+1)
 				st.okKnown = known && t
-				steps = append(steps, st)
+				// steps in the order of their comparisons
+				at := len(steps)
+				for at > 0 && stepPos[at-1] > cmp.pos {
+					at--
+				}
+				steps = append(steps[:at], append([]step{st}, steps[at:]...)...)
+				stepPos = append(stepPos[:at], append([]int{cmp.pos}, stepPos[at:]...)...)
 			}
 			if undecided {
 				continue
